@@ -29,6 +29,8 @@ type PropSpec struct {
 	ThorSecs  int
 	// race pass (optional): runs on a worker built with the race detector, after the main pass
 	RaceQuick, RaceThor int
+	// unlock-yield pass (optional, DESIGN 11.17): the same scenarios with a scheduling point after every release of a lock
+	UYQuick, UYThor int
 	// RaceFiles, when set, narrows the race pass to a subset of the property's anchored files (DESIGN 11.12 says why)
 	RaceFiles []string
 	Rule      string
@@ -132,6 +134,7 @@ func treeFingerprint(repo string) string {
 
 type agg struct {
 	raceRuns, raceIgnored int
+	uyRuns                int
 	watchdogRetries       int
 	runs, nontriv         int
 	hashes                map[string]struct{}
@@ -217,6 +220,7 @@ func cmdCheck(args []string) int {
 	runsOverride, secsOverride := 0, 0
 	collect := false
 	racePass := false
+	uyPass := false
 	classes := map[string][]int64{}
 	for i := 1; i < len(args); i++ {
 		switch args[i] {
@@ -233,6 +237,8 @@ func cmdCheck(args []string) int {
 			collect = true
 		case "--race":
 			racePass = true
+		case "--uyield":
+			uyPass = true
 		}
 	}
 	spec := specs[id]
@@ -253,6 +259,14 @@ func cmdCheck(args []string) int {
 		os.Setenv("VERIF_RACE", "1")
 		seed += 7000 // other cases than the main pass
 	}
+	if uyPass {
+		// the unlock-yield pass: the same scenarios with a scheduling point after every release (see DESIGN 11.17)
+		if spec.UYQuick == 0 && runsOverride == 0 {
+			fmt.Fprintln(os.Stderr, "no unlock-yield pass is defined for", id)
+			return 2
+		}
+		seed += 9000 // other cases than the main pass
+	}
 	b, err := build.Build(repo, filepath.Join(vdir, "sim"))
 	if b != nil {
 		defer os.RemoveAll(b.Scratch)
@@ -272,6 +286,12 @@ func cmdCheck(args []string) int {
 		runs = spec.RaceQuick
 		if tier == "thorough" {
 			runs = spec.RaceThor
+		}
+	}
+	if uyPass {
+		runs = spec.UYQuick
+		if tier == "thorough" {
+			runs = spec.UYThor
 		}
 	}
 	if runsOverride > 0 {
@@ -308,6 +328,24 @@ func cmdCheck(args []string) int {
 			}
 			if spec.Cells > 0 {
 				j.Knobs = map[string]int{"cell": i % spec.Cells}
+			}
+			if dk := os.Getenv("VERIF_KNOBS"); dk != "" {
+				// debugging aid: extra knobs for every job, e.g. VERIF_KNOBS=holdsite=161
+				if j.Knobs == nil {
+					j.Knobs = map[string]int{}
+				}
+				for _, kv := range strings.Split(dk, ",") {
+					if i := strings.Index(kv, "="); i > 0 {
+						v, _ := strconv.Atoi(kv[i+1:])
+						j.Knobs[kv[:i]] = v
+					}
+				}
+			}
+			if uyPass {
+				if j.Knobs == nil {
+					j.Knobs = map[string]int{}
+				}
+				j.Knobs["uyield"] = 1
 			}
 			select {
 			case pool.jobs <- j:
@@ -440,6 +478,44 @@ func cmdCheck(args []string) int {
 		}
 		return exit
 	}
+	if uyPass {
+		// sub-pass: summary on stdout for the parent, no evidence file of its own
+		if exit == 1 {
+			fmt.Printf("VIOLATION property=%s replay=%s\n", id, replayPath)
+		} else {
+			fmt.Printf("UYPASS property=%s runs=%d wall=%.1fs\n", id, a.runs, time.Since(start).Seconds())
+		}
+		return exit
+	}
+	if exit == 0 && spec.UYQuick > 0 && !collect && runsOverride == 0 {
+		self, _ := os.Executable()
+		cmd := exec.Command(self, "check", id, "--tier", tier, "--uyield")
+		cmd.Env = os.Environ()
+		out, rerr := cmd.CombinedOutput()
+		rc := 0
+		if rerr != nil {
+			rc = 2
+			if ee, ok := rerr.(*exec.ExitError); ok {
+				rc = ee.ExitCode()
+			}
+		}
+		switch rc {
+		case 0:
+			if m := regexp.MustCompile(`UYPASS property=\S+ runs=(\d+) wall=([0-9.]+)s`).FindStringSubmatch(string(out)); m != nil {
+				a.uyRuns, _ = strconv.Atoi(m[1])
+			} else {
+				fmt.Fprintln(os.Stderr, "HARNESS TROUBLE: unlock-yield pass gave no summary:\n"+lastN(string(out), 3000))
+				return 2
+			}
+		case 1:
+			os.Stdout.Write(out)
+			writeEvidence(vdir, spec, tier, seed, a, time.Since(start).Seconds(), buildSecs, runSecs, 1, nw, treeFingerprint(repo))
+			return 1
+		default:
+			fmt.Fprintln(os.Stderr, "HARNESS TROUBLE: unlock-yield pass failed:\n"+lastN(string(out), 3000))
+			return 2
+		}
+	}
 	if exit == 0 && spec.RaceQuick > 0 && !collect && runsOverride == 0 {
 		self, _ := os.Executable()
 		cmd := exec.Command(self, "check", id, "--tier", tier, "--race")
@@ -545,6 +621,10 @@ func writeEvidence(vdir string, spec *PropSpec, tier string, seed int64, a *agg,
 		}
 		racePassNote = "after the main pass the same seeded scenarios ran on a worker built with the race detector (the simulator's own synchronisation hidden from it, the edges of the simulated locks declared); a data race between two accesses of emulator code that both lie in " + scope + " is a violation"
 	}
+	uyNote := "none for this property (DESIGN 11.17)"
+	if spec.UYQuick > 0 {
+		uyNote = "after the main pass the same seeded scenarios (other seeds) ran with one more kind of scheduling point: the goroutine that releases a lock parks right after the release and goes on when the driver picks it, so the statements that follow an unlock can be separated from the critical section and held there like at any lock site"
+	}
 	cov := map[string]interface{}{
 		"race_pass":                   racePassNote,
 		"scheduling_points":           "lock acquisitions, goroutine starts (yield after every go statement), entry of every Cond.Wait; lock-grant order and holds decided by the tape",
@@ -575,6 +655,8 @@ func writeEvidence(vdir string, spec *PropSpec, tier string, seed int64, a *agg,
 		"emulator_crashes":            a.crashes,
 		"watchdog_retries":            a.watchdogRetries,
 		"race_pass_runs":              a.raceRuns,
+		"unlock_yield_pass":           uyNote,
+		"unlock_yield_pass_runs":      a.uyRuns,
 		"race_pass_reports_in_harness_code_ignored": a.raceIgnored,
 		"profiles": a.profiles,
 		"workers":  workers,
